@@ -1,7 +1,7 @@
 #!/bin/bash
 # Development helper: confirm a seeded change independently -- the full test suite passes with it, its demonstration
 # fails with it and passes without it.   confirm_mutant.sh <PROP> <k>   (works in the scratch worktree /tmp/mut/<PROP>)
-prop=$1; k=$2; wt=/tmp/mut/$prop; out=/tmp/mut/${prop}_out
+prop=$1; k=$2; root=${MUTROOT:-/tmp/mut}; wt=$root/$prop; out=$root/${prop}_out
 git -C "$wt" checkout -q -- . ; git -C "$wt" clean -fdq
 git -C "$wt" apply "$out/patch_$k.diff" || { echo "{\"applies\": false}" > "$out/confirm_$k.json"; exit 3; }
 ( cd "$wt" && PYTHONPATH=$wt PYTHONDONTWRITEBYTECODE=1 /venv/bin/python -m pytest -q -p no:cacheprovider --timeout=900 test 2>&1 | tail -1 ) > "$out/confirm_${k}_tests.txt"
